@@ -916,7 +916,12 @@ def _tag_sites(P, rep, F, rule):
             a0, a1 = sc(c["c"][1]), sc(c["c"][2])
             tgt_ok = par is not None and par.get("k") == "BinaryOperator" and par.get("op") == "=" and astq.is_this_field(P, sc(par["c"][0]), "tag_index")
             a0_ok = a0.get("k") == "MemberExpr" and a0.get("n") == "feature_tags"
-            a1_ok = a1.get("k") == "MemberExpr" and astq.is_this_field(P, a1, "tag") or (a1.get("k") == "DeclRefExpr" and P.d(a1["r"]).get("n") == "tag")
+            a1_ok = a1.get("k") == "MemberExpr" and astq.is_this_field(P, a1, "tag")
+            if not a1_ok and a1.get("k") == "DeclRefExpr" and P.d(a1["r"]).get("storage") == "local":
+                # a local holding the feature's tag: initialised from the "tag" entry of the file
+                for v_ in G.walk():
+                    if v_.get("k") == "VarDecl" and v_.get("r") == a1["r"] and v_.get("c"):
+                        a1_ok = any(y.get("k") == "StringLiteral" and y.get("v") == "tag" for y in G.walk(v_["c"][0]))
             if tgt_ok and a0_ok and a1_ok:
                 rep.ok(rule, "%s: tag_index = add_vector_unique(world->feature_tags, tag)" % f, G.nloc(c), G.qn)
             else:
